@@ -26,6 +26,27 @@ impl Type {
     pub fn tuple_of(t: Vec<Self>) -> Self {
         Self::Tuple(t)
     }
+    /// The common type of two array members or of the two branches of a conditional.
+    /// `Any` is only ever the member type of an empty array literal; it compares equal to every type, so taking
+    /// "the first one" of two equal types would let it hide the real type: `[[], ["a"]]` would be an array of arrays of
+    /// anything and `[[], ["a"]][1][0] + 1` would type-check. Here it gives way to the other side instead.
+    pub fn merge(self, other: Self) -> Result<Self, Error> {
+        let _depth = EvalDepth::enter()?;
+        use Type::*;
+        match (self, other) {
+            (Any, t) | (t, Any) => Ok(t),
+            (Array(a), Array(b)) => Ok(Array(Box::new(a.merge(*b)?))),
+            (Tuple(a), Tuple(b)) if a.len() == b.len() => {
+                let mut members = Vec::with_capacity(a.len());
+                for (a, b) in a.into_iter().zip(b) {
+                    members.push(a.merge(b)?);
+                }
+                Ok(Tuple(members))
+            }
+            (a, b) if a == b => Ok(a),
+            (a, b) => bail!("type mismatch: {} and {}", a, b),
+        }
+    }
 }
 
 impl PartialEq for Type {
@@ -360,15 +381,14 @@ impl Evaluatable for Value {
                 if a.is_empty() {
                     Ok(Type::Array(Box::new(Type::Any)))
                 } else {
-                    let t = a[0].real_type_of(ctx.clone())?;
-                    a.iter().try_for_each(|x| {
+                    let mut t = a[0].real_type_of(ctx.clone())?;
+                    for x in a.iter().skip(1) {
                         let xt = x.real_type_of(ctx.clone())?;
                         if xt != t {
                             bail!("array member must have same type: required type={:?}, mismatch type={} item={:?}", t, xt, x)
-                        } else {
-                            Ok(())
                         }
-                    })?;
+                        t = t.merge(xt)?;
+                    }
                     Ok(Type::Array(Box::new(t)))
                 }
             }
